@@ -177,9 +177,12 @@ package server
 //@   props C01
 //@   requires s != nil && params != nil
 //@   requires s.workspace != nil ==> WsOK(s.workspace, uriPath(params.TextDocument.URI))
+//@   requires s.loader != nil && LCacheOK(s.loader)
+//@   ensures [C11:loader_coherent] LCacheOK(s.loader)
+//@   ensures [C11:changed_file_invalidated] old(smhas(s.documents, params.TextDocument.URI)) && typeis(old(smget(s.documents, params.TextDocument.URI)), string) && s.workspace != nil && uriPath(params.TextDocument.URI) != "" ==> !has(s.loader.cache, uriPath(params.TextDocument.URI))
 //@   ensures [C01:fold] old(smhas(s.documents, params.TextDocument.URI)) && typeis(old(smget(s.documents, params.TextDocument.URI)), string) ==> smhas(s.documents, params.TextDocument.URI) && smget(s.documents, params.TextDocument.URI) == box(docFold(as(old(smget(s.documents, params.TextDocument.URI)), string), params.ContentChanges, len(params.ContentChanges)))
 //@   ensures [C01:absent] !old(smhas(s.documents, params.TextDocument.URI)) ==> !smhas(s.documents, params.TextDocument.URI)
-//@   modifies s.documents
+//@   modifies s.documents, s.loader.cache[*]
 //@   modifies s.workspace.cachedFormats, s.workspace.cachedCommodities, s.workspace.cachedAccounts, s.workspace.resolved, s.workspace.resolved.Primary, s.workspace.resolved.PrimaryPath, s.workspace.resolved.FileOrder, s.workspace.resolved.Files[*], s.workspace.includeGraph[*], s.workspace.reverseGraph[*]
 //@   modifies s.workspace.index.accountCounts[*], s.workspace.index.payeeCounts[*], s.workspace.index.commodityCounts[*], s.workspace.index.tagCounts[*], s.workspace.index.dateCounts[*], s.workspace.index.payeeTemplates[*], s.workspace.index.fileIndexes[*], s.workspace.index.tagValueCounts[*], s.workspace.index.tagValueCounts[*][*], s.workspace.index.transactionsByKey[*]
 //@   modifies s.workspace.index.accounts, s.workspace.index.payees, s.workspace.index.commodities, s.workspace.index.tags, s.workspace.index.tagValues, s.workspace.index.dates
@@ -281,6 +284,18 @@ package server
 //@   ensures [C17:delta_others] forall u protocol.DocumentURI :: {tokenCache.cache[u]} u != params.TextDocument.URI ==> tokenCache.cache[u] == old(tokenCache.cache[u])
 //@   ensures [ok] CacheOK(tokenCache)
 //@   modifies tokenCache.resultID, tokenCache.cache[*]
+
+// DidSave: the saved file may have changed on disk, so the loader is coherent for every path but this one on entry;
+// the handler must invalidate it (C11: "loading after a file changed on disk and was invalidated").
+//@ func (*Server).DidSave
+//@   props C11
+//@   requires s != nil && params != nil && s.loader != nil && LCacheOKExcept(s.loader, uriPath(params.TextDocument.URI))
+//@   requires s.workspace != nil ==> WsOK(s.workspace, uriPath(params.TextDocument.URI))
+//@   ensures [C11:saved_file_invalidated] s.workspace != nil && uriPath(params.TextDocument.URI) != "" ==> !has(s.loader.cache, uriPath(params.TextDocument.URI)) && LCacheOK(s.loader)
+//@   modifies s.payeeTemplatesCache, s.loader.cache[*]
+//@   modifies s.workspace.cachedFormats, s.workspace.cachedCommodities, s.workspace.cachedAccounts, s.workspace.resolved, s.workspace.resolved.Primary, s.workspace.resolved.PrimaryPath, s.workspace.resolved.FileOrder, s.workspace.resolved.Files[*], s.workspace.includeGraph[*], s.workspace.reverseGraph[*]
+//@   modifies s.workspace.index.accountCounts[*], s.workspace.index.payeeCounts[*], s.workspace.index.commodityCounts[*], s.workspace.index.tagCounts[*], s.workspace.index.dateCounts[*], s.workspace.index.payeeTemplates[*], s.workspace.index.fileIndexes[*], s.workspace.index.tagValueCounts[*], s.workspace.index.tagValueCounts[*][*], s.workspace.index.transactionsByKey[*]
+//@   modifies s.workspace.index.accounts, s.workspace.index.payees, s.workspace.index.commodities, s.workspace.index.tags, s.workspace.index.tagValues, s.workspace.index.dates
 
 //@ func (*Server).DidClose
 //@   props C01 C17
